@@ -136,24 +136,18 @@ def r4_special_floats(rep, g, a):
             sgn = peel(n['args'][0])
             ok = (r.get('path') or '').endswith('f64>::NAN') and sgn.get('lk') == 'float' and float(sgn.get('v')) > 0
     rep.check(R, 'numbers::nan|value', ok, 'f64::NAN.copysign(1.0)', '`nan` does not decode to a NaN with positive sign', facts.loc(facts.body(P + 'numbers::nan')))
-    t = term(g, 'numbers::special_float')
-    maps = [x for x in g.subterms(t) if x['op'] == 'map' and x['kind'] == 'map']
     loc = facts.loc(facts.body(P + 'numbers::special_float'))
-    clo = pm.closure_of(maps[0]['node']['args'][0]) if maps else None
-    if clo is None:
-        rep.bad(R, 'numbers::special_float|sign-table', 'sign mapping closure not found', loc)
-        return
-    interp = Interp(g.ev)
+    from .den import ParseValueInterp
     some = 'core::option::Option::Some'
     none = 'core::option::Option::None'
     res = {}
     try:
-        pat = clo['params'][0]
-        for name, s in (('+', ('ctor', some, (ord('+'),))), ('none', ('ctor', none)), ('-', ('ctor', some, (ord('-'),)))):
-            env = {}
-            if not interp.matches(pat, (s, 7), env):
-                raise Unanalysable('closure parameter pattern')
-            res[name] = interp.run(clo['body'], env)
+        sb = facts.body(P + 'numbers::special_float')
+        inp = [p_['name'] for p_ in sb.get('params', []) if p_.get('k') == 'p_bind']
+        for name, sgn in (('+', ('ctor', some, (ord('+'),))), ('none', ('ctor', none)), ('-', ('ctor', some, (ord('-'),)))):
+            pv = ParseValueInterp(g.ev, [sgn, 7])
+            r = pv.run(sb['body'], {n_: ('input',) for n_ in inp})
+            res[name] = r[2][0] if isinstance(r, tuple) and len(r) == 3 and r[0] == 'ctor' and r[1].endswith('Result::Ok') else r
         rep.check(R, 'numbers::special_float|sign-table', res == {'+': 7, 'none': 7, '-': -7}, '+/none -> f, - -> -f',
                   f'sign table of special floats is {res} for f = 7', loc)
     except Unanalysable as e:
